@@ -53,7 +53,7 @@ DupFiles(c, S, pipe, i) ==
        IN here \cup DupFiles(c, IF o.op \in {"dup", "rm"} THEN Apply(S, o) ELSE S, pipe, i + 1)
 
 \* items a file write selects: procedures, with include_module_var_imports also modules; never ignored ones
-Selected(c, G) == {n \in G.nodes : (n.kind = "proc" \/ (c.fw.mvi /\ n.kind = "mod")) /\ FALSE \notin {~v : v \in G.poss[n]}}
+Selected(c, G) == {n \in G.nodes : (n.kind = "proc" \/ (c.fw.mvi /\ n.kind = "mod")) /\ FALSE \in G.poss[n]}
 
 \* <<kind, origin>> of a written file: "file" f = the transformed copy of project file f, "dup" f = a clone of (a unit of) f
 OriginOf(c, S0, w) ==
@@ -63,8 +63,12 @@ OriginOf(c, S0, w) ==
      ELSE IF dup # {} THEN <<"dup", (CHOOSE d \in dup : TRUE)[2]>>
      ELSE <<"none", "">>
 
-\* an original is replicated iff one of the selected items it holds after the pipeline asks for it
-Replicated(c, SF, GF, o) == \E n \in Selected(c, GF) : FileOf(SF.P, n) = o /\ Repl(c.C, n)
+\* an original is replicated iff one of the items of the graph it holds after the pipeline asks for it.  The planner
+\* (item filter: none) looks at items of every kind that are not ignored -- also at the module item of a module that is
+\* only in the graph because a variable is imported from it -- whatever the file write itself selects (observed on the
+\* real planner; the documentation only says "items that don't have the replicate property")
+Replicated(c, SF, GF, o) ==
+  \E n \in {x \in GF.nodes : FALSE \in GF.poss[x]} : FileOf(SF.P, n) = o /\ Repl(c.C, n)
 
 ---------------------------------------------------------------------------------------------
 (* Design model of the planner.  File items 1..N; per file: sel (it holds a selected item, i.e. it *)
